@@ -638,6 +638,9 @@ func concatFunc(args ...query) func(query, iterator) interface{} {
 				if node != nil {
 					b.WriteString(node.Value())
 				}
+			case float64, bool:
+				// numbers and booleans are converted as by string()
+				b.WriteString(asString(t, v))
 			}
 		}
 		result := b.String()
